@@ -290,26 +290,119 @@ def canon(kind, s):
     return s["name"] if s["last"] is None else "%s[0..%d]" % (s["name"], s["last"])
 
 
-_INT = re.compile(r"(?<![A-Za-z_0-9.])-?0*(\d+)(?![A-Za-z_.\d])")
+def tokens_of(kind, s):
+    """canonical token sequence of an extracted structure; integer tokens are ("int", value)"""
+    def num(v):
+        return ([("sym", "-")] if v < 0 else []) + [("int", abs(v))]
+
+    def ie(terms):
+        out = []
+        for i, t in enumerate(terms):
+            if i:
+                out.append(("sym", "+"))
+            if t[0] == "just":
+                out.append(("name", t[1]))
+            else:
+                out += num(t[1]) + [("sym", "*"), ("name", t[2])]
+        return out
+
+    def acc(n, idx):
+        out = [("name", n), ("sym", "[")]
+        for i, x in enumerate(idx):
+            if i:
+                out.append(("sym", ","))
+            out += ie(x)
+        return out + [("sym", "]")]
+
+    def fac(f):
+        return [("name", f["v"])] if "v" in f else acc(f["t"], f["idx"])
+    if kind == "einsum":
+        out = acc(*s["out"]) + [("sym", "=")]
+        for i, t in enumerate(s["terms"]):
+            if i:
+                out.append(("sym", "+"))
+            if t["take"] is None:
+                for j, f in enumerate(t["factors"]):
+                    if j:
+                        out.append(("sym", "*"))
+                    out += fac(f)
+            else:
+                out.append(("sym", "take("))
+                for f in t["factors"]:
+                    out += fac(f) + [("sym", ",")]
+                out += [("int", t["take"]), ("sym", ")")]
+        return out
+    if kind == "directive":
+        def sz(x):
+            return [("int", x[1])] if x[0] == "int" else [("name", x[1])]
+        k = s["kind"]
+        if k in ("nway_shape", "uniform_shape"):
+            return [("sym", k + "(")] + sz(s["size"]) + [("sym", ")")]
+        if k == "uniform_occupancy":
+            return [("sym", k + "("), ("name", s["leader"]), ("sym", ".")] + sz(s["size"]) + [("sym", ")")]
+        if k == "flatten":
+            return [("sym", "flatten("), ("sym", ")")]
+        return [("sym", "follow("), ("name", s["leader"]), ("sym", ")")]
+    if kind == "rank-tuple":
+        if len(s) == 1:
+            return [("name", s[0])]
+        out = [("sym", "(")]
+        for i, v in enumerate(s):
+            if i:
+                out.append(("sym", ","))
+            out.append(("name", v))
+        return out + [("sym", ")")]
+    if kind == "stamp":
+        return [("name", s["rank"]), ("sym", "." + s["style"])]
+    if s["last"] is None:
+        return [("name", s["name"])]
+    return [("name", s["name"]), ("sym", "[0.."), ("int", s["last"]), ("sym", "]")]
+
+
+def match_tokens(text, toks):
+    """
+    True iff `text` is exactly the token sequence with optional spaces/tabs BETWEEN tokens (never inside one).
+    Integer tokens match any spelling of the value (leading zeros); a zero may carry a sign the value does not keep.
+    """
+    i = 0
+    n = len(text)
+
+    def skip(i):
+        while i < n and text[i] in " \t":
+            i += 1
+        return i
+    k = 0
+    while k < len(toks):
+        kind_, val = toks[k]
+        i = skip(i)
+        if kind_ == "int":
+            if val == 0 and i < n and text[i] == "-":
+                i = skip(i + 1)          # "-0" is the value 0
+            j = i
+            while j < n and text[j].isdigit():
+                j += 1
+            if j == i or int(text[i:j]) != val:
+                return False
+            i = j
+        else:
+            if not text.startswith(val, i):
+                return False
+            i += len(val)
+            if kind_ == "name" and i < n and (text[i].isalnum() or text[i] == "_"):
+                return False
+        k += 1
+    return skip(i) == n
 
 
 def squash(text):
-    t = text.replace(" ", "").replace("\t", "")
-    # integer literals compared by value: drop leading zeros; "-0" and "0" are the same value
-    t = re.sub(r"(?<![A-Za-z_0-9])0+(\d)", r"\1", t)
-    return t
+    return text.replace(" ", "").replace("\t", "")
 
 
 def lossless(kind, text, struct):
-    a = squash(text)
-    b = squash(canon(kind, struct))
-    if a == b:
+    if match_tokens(text, tokens_of(kind, struct)):
         return True
-    if kind == "stamp" and struct["style"] == "pos" and a == struct["rank"]:
+    if kind == "stamp" and struct["style"] == "pos" and match_tokens(text, [("name", struct["rank"])]):
         return True          # the default style is pos
-    # -0 * x is written with a sign that the value does not keep
-    if a.replace("-0*", "0*") == b.replace("-0*", "0*"):
-        return True
     return False
 
 
